@@ -2034,6 +2034,15 @@ func (k *Kernel) handleReplayedHeader(
 		}
 	}
 
+	// The hash only covers the hashes of the header's validator sets;
+	// the next height's validators are taken from the list, so the lists must match those hashes.
+	if !ValidatorSetMatchesHashes(header.ValidatorSet, k.hashScheme) ||
+		!ValidatorSetMatchesHashes(header.NextValidatorSet, k.hashScheme) {
+		return tmelink.ReplayedHeaderValidationError{
+			Err: errors.New("replayed header's validator lists do not match its validator set hashes"),
+		}
+	}
+
 	// The hash checks out, but we need to ensure that every signature we have is valid.
 	// We must be pessimistic about the validity,
 	// so we will work with a clone of the existing precommit proofs, if we have any.
